@@ -252,4 +252,11 @@ theorem blockHeaderCheck_shape : Gen.GateFacts.blockHeaderCheck = [
   "return nil"
 ] := rfl
 
+/-- `CertificateResult.Hash`: the results hash the replicas sign is the digest of the deterministic encoding of the
+WHOLE message (every field, through `lib.Marshal`), not of a hand-picked copy -/
+theorem certResultHash_shape : Gen.GateFacts.certResultHash = [
+  "bz, _ := Marshal(x)",
+  "return crypto.Hash(bz)"
+] := rfl
+
 end Canopy.C02Src
